@@ -257,6 +257,22 @@ def r3_r4_r5(ctx):
         ctx.check(canon, 'R5', 'canonical-text:%s' % prog.root_of(f).short.split('::types::', 1)[-1], f.where(bb), 'Address text = to_string() of the parsed bitcoin address',
                   'Address text is %s — not the canonical rendering of the parsed address: a valid non-canonical spelling (upper-case bech32) is accepted but matches no index key' % show(v)[:120])
     ctx.floor('R5', 'Address constructions', n, 3)
+    # every script the bitcoin library can attribute is attributed: Address::from_script passes the
+    # library's answer through (map / map_err only) — no additional filter on the address kind
+    fs = ctx.fn('R5', T + 'Address::from_script')
+    if fs:
+        rows = table(prog, fs)
+        LIB = P.call('bitcoin::address::Address::from_script', P.param(), P.call('*::into_bitcoin_network', P.param()))
+
+        def passes_through(v):
+            while isinstance(v, tuple) and v[0] == 'call' and v[1] in ('core::result::Result::map', 'core::result::Result::map_err') and len(v[2]) == 2:
+                v = v[2][0]
+            return LIB(v)
+        direct = len(rows) == 1 and not rows[0][2] and passes_through(rows[0][1])
+        matched = len(rows) == 2 and all(len(r[2]) == 1 and r[2][0][0] == 'is' and LIB(r[2][0][1]) for r in rows) and \
+            {tuple(r[2][0][2]) for r in rows} == {('Ok',), ('Err',)}
+        ctx.check(direct or matched, 'R5', 'attribution-total', fs, 'Address::from_script yields an address for every script the bitcoin library attributes (map / map_err only)',
+                  'Address::from_script drops or rewrites some of the library\'s answers: %s' % describe_table(rows))
     ctx.check(not others, 'R5', 'single-attribution-function', others[0] if others else '', 'no other script->address conversion exists in the canister', 'other conversions: %s' % [c.where() for c in others])
 
 
